@@ -240,6 +240,15 @@ def r8_4(prog, rep):
         it["rule"] = "R8.4"
         rep.items.append(it)
         rep.counts["R8.4"] = rep.counts.get("R8.4", 0) + 1
+    # only names of variables (never literals) are counted as used columns
+    sub2 = type(rep)(rep.prop)
+    C09.r9_4(prog, sub2)
+    for it in sub2.items:
+        if "visitLazyValue" in it["construct"] or "visitLazyVariable" in it["construct"] or "Variable.var_names" in it["construct"]:
+            it = dict(it)
+            it["rule"] = "R8.4"
+            rep.items.append(it)
+            rep.counts["R8.4"] = rep.counts.get("R8.4", 0) + 1
     # .index is read only under len(...)
     n = 0
     for q, f in sorted(prog.functions.items()):
